@@ -168,7 +168,8 @@ def make_read_record(g, rng, walk, name, tags="safe", max_span=None, min_span=1,
         ps = 0
     pe = ps + span
     target = pseq[ps:pe]
-    seg, ops = mutate(rng, target, rate=rng.choice([0.0, 0.02, 0.08, 0.2]) if rate is None else rate)
+    the_rate = rng.choice([0.0, 0.02, 0.08, 0.2]) if rate is None else rate
+    seg, ops = mutate(rng, target, rate=the_rate, long_indel=0.3 if (rate is None or rate > 0) else 0.0)
     if not seg:
         seg, ops = target[:1] or "A", merge([(1, "=" if target[:1] else "I")] + ([(len(target) - 1, "D")] if len(target) > 1 else []))
     pre = rgfa.rand_seq(rng, rng.choice([0, 0, rng.randint(0, 30)]))
